@@ -37,7 +37,7 @@ lemma map_reshareParty (h : IsHom o φ) (m t uci i : ℕ) (sub : ℕ → K) :
   simp only [List.map_map, Function.comp_def, List.map_cons, List.map_nil]
   rfl
 
-lemma map_sumDealt_getD (h : IsHom o φ) (m : ℕ) (rows : List (List K)) (i : ℕ) :
+lemma map_sumDealt_getD (h : IsHom o φ) (rows : List (List K)) (i : ℕ) :
     φ (rows.foldl (fun acc r => o.add acc (r.getD i o.zero)) o.zero)
       = (rows.map (List.map φ)).foldl
           (fun acc r => (imageOps o φ).add acc (r.getD i (imageOps o φ).zero)) (imageOps o φ).zero := by
@@ -101,22 +101,29 @@ lemma consistentOps_modP_map (t : ℕ) (shares : List ℕ) (hs : ∀ x ∈ share
           (fun i => decide (interp (fieldOps (ZMod p) (embP p)) t (shares.map cast)
             ((fieldOps (ZMod p) (embP p)).ofNat (i + 1))
               = (shares.map cast).getD i (fieldOps (ZMod p) (embP p)).zero)) := by
-      apply List.all_congr rfl
-      intro i hi
-      have hi' : i < shares.length := List.mem_range.1 hi
-      apply decide_eq_decide.2
-      have hmi := map_interp (modP_isHom p) t shares ((modP p).ofNat (i + 1))
-      rw [imageOps_modP] at hmi
-      have hg : shares.getD i (modP p).zero < p := by
-        rw [getD_lt _ _ hi']; exact hs _ (List.getElem_mem _)
+      rw [Bool.eq_iff_iff]
+      simp only [List.all_eq_true, List.mem_range, decide_eq_true_eq]
+      have hiff : ∀ i < shares.length,
+          (interp (modP p) t shares ((modP p).ofNat (i + 1)) = shares.getD i (modP p).zero)
+          ↔ (interp (fieldOps (ZMod p) (embP p)) t (shares.map cast)
+            ((fieldOps (ZMod p) (embP p)).ofNat (i + 1))
+              = (shares.map cast).getD i (fieldOps (ZMod p) (embP p)).zero) := by
+        intro i hi'
+        have hmi := map_interp (modP_isHom p) t shares ((modP p).ofNat (i + 1))
+        rw [imageOps_modP] at hmi
+        have hg : shares.getD i (modP p).zero < p := by
+          rw [getD_lt _ _ hi']; exact hs _ (List.getElem_mem _)
+        constructor
+        · intro h
+          rw [fieldOps_zero, getD_map_cast, ← show (modP p).zero = 0 from rfl, ← h, hmi]
+          rfl
+        · intro h
+          apply cast_inj_of_lt p (interp_modP_lt p hp.out.pos _ _ _) hg
+          rw [hmi, show (modP p).zero = 0 from rfl, ← getD_map_cast]
+          exact h
       constructor
-      · intro h
-        rw [fieldOps_zero, getD_map_cast, ← show (modP p).zero = 0 from rfl, ← h, hmi]
-        rfl
-      · intro h
-        apply cast_inj_of_lt p (interp_modP_lt p hp.out.pos _ _ _) hg
-        rw [hmi, show (modP p).zero = 0 from rfl, ← getD_map_cast]
-        exact h
+      · intro h i hi; exact (hiff i hi).1 (h i hi)
+      · intro h i hi; exact (hiff i hi).2 (h i hi)
     rw [hcond]
     split
     · simp only [Option.map_some, Option.some.injEq]
@@ -236,12 +243,33 @@ theorem sumDealt_consistentB {m : ℕ} (hm : m < p) {t : ℕ} (htm : t < m) (row
   rw [hv]
   refine key.congr fun i hi => ?_
   simp only [sumDealt]
-  rw [getD_map_range' _ _ hi, map_sumDealt_getD (modP_isHom p) m, imageOps_modP,
+  rw [getD_map_range' _ _ hi, map_sumDealt_getD (modP_isHom p), imageOps_modP,
     foldl_add_eq_sum (embP p) (fun r : List (ZMod p) => r.getD i (fieldOps (ZMod p) (embP p)).zero)]
   simp only [fieldOps_zero, zero_add, List.map_map, Function.comp_def]
   congr 1
   apply List.map_congr_left
   intro row _
   rw [getD_map_cast]
+
+/-- dealing: column `h` of the executable `random_split` is accepted with degree t and secret `s[h]`,
+for ANY coefficient stream -/
+theorem deal_consistentB {m : ℕ} (hm : m < p) {t : ℕ} (htm : t < m) (s coeffs : List ℕ) {h : ℕ}
+    (hh : h < s.length) :
+    consistentB p t ((randomSplit (modP p) s coeffs t m).map fun row => row.getD h 0)
+      = some (s.getD h 0 % p) := by
+  have hlen : ((randomSplit (modP p) s coeffs t m).map fun row => row.getD h 0).length = m := by
+    simp [randomSplit]
+  apply (consistentB_spec p t _ (by omega) (by omega) _).2
+  refine ⟨Nat.mod_lt _ hp.out.pos, ?_⟩
+  rw [hlen]
+  have key := consistent_deal (embP p) (s.map cast) (coeffs.map cast) t m (h := h) (by simpa using hh)
+  rw [getD_map_cast] at key
+  rw [ZMod.natCast_mod]
+  refine key.congr fun i hi => ?_
+  rw [← imageOps_modP, ← map_randomSplit (modP_isHom p), ← getD_map_nil, getD_map_cast]
+  congr 1
+  have hi' : i < (randomSplit (modP p) s coeffs t m).length := by simpa [randomSplit] using hi
+  rw [getD_lt _ _ (by simpa using hi'), getD_lt _ _ hi']
+  simp
 
 end MpycV.Share
